@@ -70,11 +70,46 @@ def facts_at(module, func, node, no_kill=()):
         names = set(names) - set(no_kill)
         facts[:] = [f for f in facts if not (f[2] & names)]
 
+    rounded = {}        # no_kill name -> 'trunc' | 'floor' | 'ceil' | 'unknown': later tests speak about the rounded value
+
     def add(test, truth):
         # a name bound inside the test (x := ...) holds a new value from here on
         kill(n.target.id for n in ast.walk(test) if isinstance(n, ast.NamedExpr))
         for a, t in atoms(test, truth):
+            hit = _names(a) & set(rounded)
+            if hit:
+                # a fact about int(x) is a (weaker or shifted) fact about x: translate it, or drop it when that is not possible
+                a2 = _unround(a, t, rounded) if len(hit) == 1 else None
+                if a2 is None:
+                    continue
+                a, t = a2
             facts.append((a, t, _names(a)))
+
+    def note_rounding(sib):
+        for nm in no_kill:
+            if nm not in assigned_names(sib):
+                continue
+            kind = 'unknown'
+            if isinstance(sib, ast.Assign) and len(sib.targets) == 1 and isinstance(sib.targets[0], ast.Name) and sib.targets[0].id == nm:
+                v = sib.value
+                if isinstance(v, ast.Call) and len(v.args) == 1 and isinstance(v.args[0], ast.Name) and v.args[0].id == nm and not v.keywords:
+                    fn = v.func.attr if isinstance(v.func, ast.Attribute) else (v.func.id if isinstance(v.func, ast.Name) else None)
+                    kind = {'int': 'trunc', 'trunc': 'trunc', 'floor': 'floor', 'ceil': 'ceil'}.get(fn)
+                    if kind is None and fn in ('round', 'abs'):
+                        kind = 'unknown'
+                    if kind is None:
+                        continue        # a conversion that keeps the value (parse_number, float, to_number ...)
+                else:
+                    if not any(isinstance(x, ast.Call) and isinstance(x.func, (ast.Name, ast.Attribute)) and
+                               (x.func.id if isinstance(x.func, ast.Name) else x.func.attr) in ('int', 'trunc', 'floor', 'ceil', 'round', 'abs')
+                               and any(isinstance(y, ast.Name) and y.id == nm for a_ in x.args for y in ast.walk(a_)) for x in ast.walk(v)):
+                        continue
+            else:
+                if not any(isinstance(x, ast.Call) and isinstance(x.func, (ast.Name, ast.Attribute)) and
+                           (x.func.id if isinstance(x.func, ast.Name) else x.func.attr) in ('int', 'trunc', 'floor', 'ceil', 'round', 'abs')
+                           and any(isinstance(y, ast.Name) and y.id == nm for a_ in x.args for y in ast.walk(a_)) for x in ast.walk(sib)):
+                    continue
+            rounded[nm] = kind if nm not in rounded else 'unknown'
 
     for par, field, blk, idx in chain:
         # facts from the owner statement itself
@@ -98,9 +133,55 @@ def facts_at(module, func, node, no_kill=()):
                 _chain_facts(sib, add, kill, in_loop=_in_loop(module, sib, func))
             else:
                 kill(assigned_names(sib))
+                note_rounding(sib)
                 if isinstance(sib, ast.Assert):
                     add(sib.test, True)
     return [(a, t) for a, t, _ in facts]
+
+
+def _unround(atom, truth, rounded):
+    """(atom', truth') about x equivalent to ``atom`` = truth about int(x) / floor(x) / ceil(x); None when there is none.
+    Only comparisons of the bare name with an integer constant are translated."""
+    if not (isinstance(atom, ast.Compare) and len(atom.ops) == 1):
+        return None
+    l, r = atom.left, atom.comparators[0]
+    op = type(atom.ops[0])
+    flip = {ast.Lt: ast.Gt, ast.Gt: ast.Lt, ast.LtE: ast.GtE, ast.GtE: ast.LtE}
+    if isinstance(r, ast.Name) and r.id in rounded and not isinstance(l, ast.Name):
+        if op not in flip:
+            return None
+        l, r, op = r, l, flip[op]
+    if not (isinstance(l, ast.Name) and l.id in rounded):
+        return None
+    c = const_number(r)
+    if c is None or c.denominator != 1 or op not in flip:
+        return None
+    c = int(c)
+    kind = rounded[l.id]
+    # normalise to  R(x) <= k  or  R(x) >= k  (with the truth folded in)
+    neg = {ast.Lt: ast.GtE, ast.GtE: ast.Lt, ast.Gt: ast.LtE, ast.LtE: ast.Gt}
+    if not truth:
+        op = neg[op]
+    if op is ast.Lt:
+        op, c = ast.LtE, c - 1
+    elif op is ast.Gt:
+        op, c = ast.GtE, c + 1
+    if kind == 'trunc':
+        if op is ast.LtE:
+            new = (ast.Lt, c + 1) if c >= 0 else (ast.LtE, c)
+        else:
+            new = (ast.Gt, c - 1) if c <= 0 else (ast.GtE, c)
+    elif kind == 'floor':
+        new = (ast.Lt, c + 1) if op is ast.LtE else (ast.GtE, c)
+    elif kind == 'ceil':
+        new = (ast.LtE, c) if op is ast.LtE else (ast.Gt, c - 1)
+    else:
+        return None
+    a2 = ast.Compare(left=ast.Name(id=l.id, ctx=ast.Load()), ops=[new[0]()],
+                     comparators=[ast.Constant(value=new[1]) if new[1] >= 0 else ast.UnaryOp(op=ast.USub(), operand=ast.Constant(value=-new[1]))])
+    ast.copy_location(a2, atom)
+    ast.fix_missing_locations(a2)
+    return a2, True
 
 
 def _in_loop(module, node, func):
